@@ -113,4 +113,61 @@ theorem readTo_refuses_incomplete_block (d : FileSt) (a : Nat) (buf : Bytes) (hb
 example : readLoop [1, 2, 3, 4, 5, 6, 7, 8] 2 5 [0, 1, 0, 3, 9] [] = some [3, 4, 5, 6, 7] := by decide
 example : readLoop [1, 2, 3, 4] 2 5 [0, 1, 0, 3, 9] [] = none := by decide
 
+/-! ### The size check of `NewFileDisk`
+
+The model computes byte offsets in unbounded `Nat`; the code computes `a * BlockSize` in `uint64` and converts it to
+`int64`.  `NewFileDisk` refuses block counts above `math.MaxInt64 / BlockSize` (`openable`), and for every disk it does
+open the two computations agree at every in-range address: the product neither wraps around `2^64` nor exceeds the
+largest file offset, for the block's last byte included.  Before the repair a disk of `2^53` blocks opened and the blocks
+`1` and `2^52 + 1` were one block (the `huge` stream of the correspondence check). -/
+
+theorem openable_offsets_exact (n a : Nat) (hopen : openable BS n = true) (ha : a < n) :
+    a * BS + BS ≤ maxOff ∧ (a * BS) % 2 ^ 64 = a * BS := by
+  have hn : n ≤ maxOff / BS := by simpa [openable] using hopen
+  have h1 : (a + 1) * BS ≤ n * BS := Nat.mul_le_mul_right BS (by omega)
+  have h2 : n * BS ≤ maxOff := by
+    have := Nat.mul_le_mul_right BS hn
+    exact Nat.le_trans this (Nat.div_mul_le_self maxOff BS)
+  have h3 : a * BS + BS ≤ maxOff := by
+    have : (a + 1) * BS = a * BS + BS := Nat.succ_mul a BS
+    omega
+  refine ⟨h3, Nat.mod_eq_of_lt ?_⟩
+  have : maxOff < 2 ^ 64 := by decide
+  omega
+
+/-- distinct in-range blocks of an opened disk have disjoint byte ranges below the offset limit: no aliasing -/
+theorem openable_blocks_disjoint (n a b : Nat) (hopen : openable BS n = true) (ha : a < n) (hb : b < n) (hab : a < b) :
+    (a * BS) % 2 ^ 64 + BS ≤ (b * BS) % 2 ^ 64 := by
+  rw [(openable_offsets_exact n a hopen ha).2, (openable_offsets_exact n b hopen hb).2]
+  have : (a + 1) * BS ≤ b * BS := Nat.mul_le_mul_right BS (by omega)
+  have h : (a + 1) * BS = a * BS + BS := Nat.succ_mul a BS
+  omega
+
+/-- the refused sizes are exactly those whose byte length is not a file offset -/
+theorem not_openable_iff (n : Nat) : openable BS n = false ↔ maxOff < n * BS := by
+  have hbs : 0 < BS := by decide
+  simp only [openable, decide_eq_false_iff_not, Nat.not_le]
+  constructor
+  · intro h
+    have := (Nat.div_lt_iff_lt_mul hbs).mp h
+    exact this
+  · intro h
+    exact (Nat.div_lt_iff_lt_mul hbs).mpr h
+
+theorem open_checked (img : Bytes) (n : Nat) :
+    fileOpenChecked BS img n = if n * BS ≤ maxOff then some (fileOpen BS img n) else none := by
+  unfold fileOpenChecked
+  cases h : openable BS n
+  · have h1 := (not_openable_iff n).mp h
+    have h2 : ¬ (n * BS ≤ maxOff) := Nat.not_le.mpr h1
+    simp [h2]
+  · have hn : ¬ (openable BS n = false) := by simp [h]
+    have h1 := mt (not_openable_iff n).mpr hn
+    have h2 : n * BS ≤ maxOff := Nat.not_lt.mp h1
+    simp [h2]
+
+example : openable BS (2 ^ 51 - 1) = true := by decide
+example : openable BS (2 ^ 51) = false := by decide
+example : openable BS (2 ^ 53) = false ∧ ((2 ^ 52 + 1) * BS) % 2 ^ 64 = 1 * BS := by decide
+
 end GooseVerif.Props.C11
